@@ -262,6 +262,30 @@ def has_zero_child(e):
     return any(k["cls"] == "Zero" for x in nodes(e) for k in kids_of(x))
 
 
+# ------------------------------------------------------------------------------------------ pattern tensors
+
+def pattern_t(shape, a=7, b=3, mod=5, off=2):
+    """spec of a big tensor with cheap deterministic small-integer values: entry at flat position k (row-major) in row r is
+    ((a*k + b*r) mod `mod`) - off   (never written out as a list: the wide / tall family has thousands of columns)"""
+    return {"shape": list(shape), "pattern": [a, b, mod, off]}
+
+
+def rt(t, dtype=torch.float64):
+    """ob.tt for tensor specs, also those given by a pattern"""
+    if "pattern" not in t:
+        return ob.tt(t, dtype)
+    a, b, mod, off = t["pattern"]
+    n = int(math.prod(t["shape"]))
+    k = torch.arange(n, dtype=torch.int64)
+    cols = t["shape"][-1] if t["shape"] else 1
+    v = ((a * k + b * (k // max(1, cols))) % mod) - off
+    return v.to(dtype).reshape(t["shape"])
+
+
+def rhs_is_wide(rhs):
+    return bool(rhs) and any(d > 64 for d in rhs["shape"])
+
+
 # ------------------------------------------------------------------------------------------ queries
 
 QKINDS = ["matmul_vec", "matmul_mat", "matmul_batched", "matmul_bcast", "rmatmul", "rmatvec", "tmatmul", "t_matmul_internal",
@@ -303,7 +327,7 @@ def run_query(op, kind, rhs, dtype):
     try:
         extra = {}
         if kind.startswith("matmul_"):
-            X = ob.tt(rhs, dtype)
+            X = rt(rhs, dtype)
             if kind == "matmul_batched" and X.dim() >= 2:
                 X = X.mT.contiguous().mT          # same values in a NON-contiguous (column-major) layout
             r1, cls1 = densify(op @ X)
@@ -314,17 +338,17 @@ def run_query(op, kind, rhs, dtype):
                 extra["returned"] = cls1
             res = r1
         elif kind in ("rmatmul", "rmatvec"):
-            Y = ob.tt(rhs, dtype)
+            Y = rt(rhs, dtype)
             res, cls1 = densify(Y @ op)
             if cls1:
                 extra["returned"] = cls1
         elif kind == "tmatmul":
-            X = ob.tt(rhs, dtype)
+            X = rt(rhs, dtype)
             res, cls1 = densify(op.mT @ X)
             if cls1:
                 extra["returned"] = cls1
         elif kind == "t_matmul_internal":
-            X = ob.tt(rhs, dtype)
+            X = rt(rhs, dtype)
             res, cls1 = densify(op._t_matmul(X))
             if cls1:
                 extra["returned"] = cls1
@@ -356,11 +380,11 @@ def expected(D, kind, rhs, dtype):
     dtype = torch.float64
     D = D.to(torch.float64)
     if kind.startswith("matmul_"):
-        return torch.matmul(D, ob.tt(rhs, dtype))
+        return torch.matmul(D, rt(rhs, dtype))
     if kind in ("rmatmul", "rmatvec"):
-        return torch.matmul(ob.tt(rhs, dtype), D)
+        return torch.matmul(rt(rhs, dtype), D)
     if kind in ("tmatmul", "t_matmul_internal"):
-        return torch.matmul(D.mT, ob.tt(rhs, dtype))
+        return torch.matmul(D.mT, rt(rhs, dtype))
     if kind == "to_dense":
         return D
     if kind == "t_to_dense":
@@ -544,6 +568,7 @@ def cells(quick):
             if ch == "Zero" or (quick and (pi + chi) % 2):
                 continue
             out.append(("Bcast:" + par, ch, str((pi + chi) % len(BCAST_PAIRS)), sk[(pi + chi) % len(sk)], 2))
+    out += wide_cells()           # thin wide / tall family (same in both tiers)
     if not quick:
         for ci, cls in enumerate(ob.ALL):
             for b in bk:
@@ -604,10 +629,10 @@ def gen_expr(rng, cell):
 
 
 def sanitize(rng, e, cell):
-    """The two defective cells of the pinned tree (Chol(upper=True), Zero as a nested child) would otherwise
-    dominate the grid through opbuild's random choices and mask everything around them.  They are exercised in
-    DEDICATED cells (class or child == Chol / Zero; there the flag is fixed by the cell, not by the seed) and
-    replaced by the neighbouring valid instance (lower factor / dense block of the same shape) elsewhere."""
+    """Zero as a nested child (known findings: representation() / unsqueeze / dtype) would otherwise dominate the grid through
+    opbuild's random choices and mask everything around it: it is exercised in DEDICATED cells (class or child == Zero) and
+    replaced by a dense block of the same shape elsewhere.  In the dedicated Chol cells the orientation flag is fixed by the
+    cell (not by the seed); elsewhere the flag opbuild chose is kept."""
     cls, child, b, s, depth = cell
     chol_cell = "Chol" in (cls, child)
     zero_cell = "Zero" in (cls, child)
@@ -615,7 +640,7 @@ def sanitize(rng, e, cell):
 
     def walk(x, top):
         if x["cls"] == "Chol":
-            want = upper if chol_cell else False
+            want = upper if chol_cell else bool(x["upper"])     # (repaired tree: the upper orientation is right everywhere)
             if bool(x["upper"]) != want:
                 t = ob.tt(x["t"]).mT.contiguous()
                 x = {"cls": "Chol", "t": ob.from_torch(t), "upper": want}
@@ -804,6 +829,96 @@ def gen_bcast(rng, parent, child, pi, m, n):
     raise ValueError(parent)
 
 
+# ------------------------------------------------------------------------------------------ wide / tall family
+
+# Size thresholds: code that chunks / loops / allocates by a column or row COUNT only misbehaves beyond a threshold the small grid
+# never reaches.  WIDE_COLS = {1, 2} + {T-1, T, T+1, 2T+1} for T in {1024} + every integer literal >= 64 the source scan
+# (harness/c01_scan.py) finds in the anchored files; set by run() before the cells are enumerated, handed to the workers.
+WIDE_COLS = [1, 2, 1023, 1024, 1025, 2049]
+WIDE_LEAVES = ["Interpolated", "Toeplitz"]            # kernel-heavy children put under every composite parent
+WIDE_BIG = ["Interpolated", "InterpolatedWide", "InterpolatedTall", "Toeplitz", "Diag", "Permutation", "BlockDiag", "Kron", "Masked", "Cat"]
+
+
+def gen_wide(rng, cell):
+    """(expression, queries) of one cell of the wide / tall family: a SMALL operator multiplied with right-hand sides of
+    WIDE_COLS columns / left-hand sides of that many rows, or an operator that itself has that many rows / columns.
+    Values come from pattern_t; judged by the direct predicate only (no Coq literal)."""
+    kind, name, b, s, depth = cell
+    m, n = SIZES[s]
+    batch = list(BKIND.get(b, []))
+    if kind == "Wide":                     # every class on top
+        e = ob.gen(rng, name, batch=batch, m=m, n=n, depth=1, child="Dense")
+    elif kind.startswith("WideNest:"):     # a kernel-heavy leaf below every composite parent (the non-public _matmul path)
+        par = kind.split(":")[1]
+        if par == "Root":
+            e = {"cls": "Root", "root": ob.gen(rng, name, batch=batch, m=m, n=n, depth=1, child="Dense")}
+        else:
+            e = ob.gen(rng, par, batch=batch, m=m, n=n, depth=2, child=name)
+    else:                                  # WideBig: the operator itself is big
+        T = int(b)
+        e = gen_big(rng, name, T)
+        mm_, nn_ = ob.shape_of(e)[-2:]
+        qs = [("matmul_mat", pattern_t([nn_, 2])), ("rmatmul", pattern_t([2, mm_], 5, 2, 7, 3)), ("to_dense", None),
+              ("t_to_dense", None), ("size", None), ("accessors", None)]
+        return sanitize(rng, e, ("Dense", None, "()", "sq", 1)), qs
+    e = sanitize(rng, e, (kind, name, b, s, depth))
+    shp = ob.shape_of(e)
+    mm_, nn_ = shp[-2:]
+    eb = shp[:-2]
+    qs = []
+    for i, c in enumerate(WIDE_COLS):
+        xb = [] if (i % 2 == 0 or not eb) else list(eb)
+        qs.append(("matmul_mat" if not xb else "matmul_batched", pattern_t(xb + [nn_, c], 7, 3, 5, 2)))
+        qs.append(("rmatmul", pattern_t(xb + [c, mm_], 5, 2, 7, 3)))
+        if i % 3 == 0:
+            qs.append(("tmatmul", pattern_t([mm_, c], 3, 1, 5, 2)))
+            qs.append(("t_matmul_internal", pattern_t([mm_, c], 11, 1, 3, 1)))
+    return e, qs
+
+
+def gen_big(rng, name, T):
+    """an operator with T rows and / or columns"""
+    small = lambda shape: ob.from_torch(rt(pattern_t(shape, 7, 3, 5, 2)))
+    idx = lambda rows, k, bound: {"shape": [rows, k], "data": [(3 * i + 5 * j + i // 7) % bound for i in range(rows) for j in range(k)], "long": True}
+    if name.startswith("Interpolated"):
+        rows = 3 if name == "InterpolatedWide" else T
+        cols = 3 if name == "InterpolatedTall" else T
+        base = {"cls": "Dense", "t": small([4, 3])}
+        return {"cls": "Interpolated", "base": base, "li": idx(rows, 2, 4), "lv": small([rows, 2]), "ri": idx(cols, 2, 3), "rv": small([cols, 2])}
+    if name == "Toeplitz":
+        return {"cls": "Toeplitz", "col": small([T])}
+    if name == "Diag":
+        return {"cls": "Diag", "d": small([T])}
+    if name == "Permutation":
+        return {"cls": "Permutation", "perm": {"shape": [T], "data": [(i * 7 + 3) % T if math.gcd(7, T) == 1 else (T - 1 - i) for i in range(T)], "long": True}}
+    if name == "BlockDiag":
+        k = next((d for d in (5, 3, 7, 2) if T % d == 0), 1)
+        return {"cls": "BlockDiag", "base": {"cls": "Dense", "t": small([T // k, k, k])}, "block_dim": -3}
+    if name == "Kron":
+        k = next((d for d in (5, 3, 7, 2) if T % d == 0), 1)
+        return {"cls": "Kron", "ops": [{"cls": "Dense", "t": small([k, 2])}, {"cls": "Dense", "t": small([T // k, 2])}]}
+    if name == "Masked":
+        mask = lambda sz: {"shape": [sz], "data": [0 if i == 1 else 1 for i in range(sz)], "bool": True}
+        return {"cls": "Masked", "base": {"cls": "Dense", "t": small([4, T + 1])}, "row_mask": mask(4), "col_mask": mask(T + 1)}
+    if name == "Cat":
+        return {"cls": "Cat", "ops": [{"cls": "Dense", "t": small([3, T - 2])}, {"cls": "Toeplitz", "col": small([3])}], "dim": -1}
+    raise ValueError(name)
+
+
+def wide_cells():
+    out = []
+    bk, sk = list(BKIND), list(SIZES)
+    for ci, cls in enumerate(ob.ALL):
+        out.append(("Wide", cls, ("()", "(2,)", "(2,1)")[ci % 3], ("sq", "wide", "tall", "sq2")[ci % 4], 1))
+    for pi, par in enumerate(TAKES_CHILD):
+        for li, leaf in enumerate(WIDE_LEAVES):
+            out.append(("WideNest:" + par, leaf, ("()", "(2,)")[(pi + li) % 2], ("sq", "sq2")[(pi + li) % 2], 2))
+    for T in sorted({c for c in WIDE_COLS if c > 64 and (c - 1) in WIDE_COLS and (c - 2) in WIDE_COLS}):   # the T + 1 members
+        for name in WIDE_BIG:
+            out.append(("WideBig", name, str(T), "sq", 1))
+    return out
+
+
 # ------------------------------------------------------------------------------------------ keys / shrinking
 
 EXC_CLASSES = [
@@ -825,7 +940,7 @@ def exc_class(text):
     return text[:50]
 
 
-def fail_key(e, kind, fk, text, dtype_tag):
+def fail_key(e, kind, fk, text, dtype_tag, rhs=None):
     """structural key of a failing (expression, query); e is the smallest sub-expression that still fails"""
     cl = tree_classes(e)
     key = {"class": e["cls"], "fail": fk,
@@ -838,6 +953,7 @@ def fail_key(e, kind, fk, text, dtype_tag):
            "chol_upper_kid": any(k["cls"] == "Chol" and bool(k.get("upper")) for k in kids_of(e)),
            "kid_batch_differs": any(ob.shape_of(k)[:-2] != ob.shape_of(e)[:-2] for k in kids_of(e)),
            "dtype": dtype_tag}
+    key["wide"] = rhs_is_wide(rhs) or max(ob.shape_of(e)[-2:]) > 64      # a dimension beyond the small grid (wide / tall family)
     if kind.startswith("matmul_"):
         key["rhs"] = kind[len("matmul_"):]
     if e["cls"] in ("Chol", "Triangular", "KronTriangular"):
@@ -894,28 +1010,35 @@ def shrink(e, kind, fk, dtype_tag, text=""):
 def _observe_chunk(args):
     """worker: build, query and judge one chunk of cells.  The random stream of a chunk depends only on (seed, chunk index),
     so the result does not depend on how the chunks are distributed over the workers."""
-    seed, ci, chunk = args
+    global WIDE_COLS
+    seed, ci, chunk, WIDE_COLS = args
     torch.set_num_threads(1)
     rng = random.Random(seed * 1000003 + ci)
     cases = []
     skipped = {"gen": 0, "build": 0, "size": 0, "inexpressible": 0, "invalid": 0}
     for cell in chunk:
+        wide = cell[0].startswith("Wide")
+        qs = None
         try:
-            e = gen_expr(rng, cell)
+            if wide:
+                e, qs = gen_wide(rng, cell)
+            else:
+                e = gen_expr(rng, cell)
         except Exception:
             skipped["gen"] += 1
             continue
-        if not numel_ok(e):
+        if not wide and not numel_ok(e):
             skipped["size"] += 1
             continue
         if not valid(e):
             skipped["invalid"] += 1      # generator artefact: arguments outside what the class documents
             continue
-        try:
-            lit = expr_lit(e)
-        except ValueError:
-            skipped["inexpressible"] += 1    # no Coq literal: the case is still judged by the direct predicate
-            lit = None
+        lit = None                       # the wide / tall family is judged by the direct predicate only
+        if not wide:
+            try:
+                lit = expr_lit(e)
+            except ValueError:
+                skipped["inexpressible"] += 1    # no Coq literal: the case is still judged by the direct predicate
         try:
             op64 = build(e, torch.float64)
             op32 = build(e, torch.float32)
@@ -924,7 +1047,8 @@ def _observe_chunk(args):
         except Exception:
             skipped["build"] += 1        # the constructor refuses the combination: not constructible, outside the property
             continue
-        qs = make_queries(rng, e)
+        if qs is None:
+            qs = make_queries(rng, e)
         rows = []
         for kind, rhs in qs:
             o64 = run_query(op64, kind, rhs, torch.float64)
@@ -964,7 +1088,7 @@ def observe_all(ctx, seed, cell_list):
     """build, query and judge every cell (3 worker processes).  returns (cases, skipped, number of default-dtype evaluations)"""
     import multiprocessing
     from concurrent.futures import ProcessPoolExecutor
-    tasks = [(seed, i // CHUNK, cell_list[i:i + CHUNK]) for i in range(0, len(cell_list), CHUNK)]
+    tasks = [(seed, i // CHUNK, cell_list[i:i + CHUNK], list(WIDE_COLS)) for i in range(0, len(cell_list), CHUNK)]
     results, failed = [None] * len(tasks), []
     try:
         with ProcessPoolExecutor(max_workers=WORKERS, mp_context=multiprocessing.get_context("spawn")) as ex:
@@ -1003,9 +1127,14 @@ def shard_src(cases):
             + "Eval vm_compute in (count_covered cases).\n")
 
 
+def _small(x):
+    """observed tensor for a replay file: big results (wide / tall family) are summarised"""
+    return x.tolist() if x.numel() <= 4000 else {"shape": list(x.shape), "first_row": x.reshape(-1, x.shape[-1])[0][:64].tolist()}
+
+
 def case_replay(cs, row, what, extra=None):
     rp = {"kind": what, "expr": cs["e"], "query": row["kind"], "rhs": row["rhs"], "cell": list(cs["cell"]),
-          "observed": (row["o64"][1].tolist() if (row["o64"][0] == "ok" and torch.is_tensor(row["o64"][1])) else str(row["o64"][1]))}
+          "observed": (_small(row["o64"][1]) if (row["o64"][0] == "ok" and torch.is_tensor(row["o64"][1])) else str(row["o64"][1]))}
     if extra:
         rp.update(extra)
     return rp
@@ -1025,7 +1154,7 @@ def report_predicate_failures(ctx, rng, cases, stats):
                 if mk not in memo:
                     memo[mk] = shrink(cs["e"], row["kind"], f[0], tag, f[1])
                 sub = memo[mk]
-                key = fail_key(sub, row["kind"], f[0], f[1], tag)
+                key = fail_key(sub, row["kind"], f[0], f[1], tag, row["rhs"])
                 sig = json.dumps(key, sort_keys=True)
                 if sig in seen:
                     continue
@@ -1054,7 +1183,7 @@ def replay_known(ctx):
             n += 1
             sub = shrink(rp["expr"], rp["query"], f[0], tag, f[1])
             ctx.violation({"kind": "property-fails-on-implementation", "expr": rp["expr"], "query": rp["query"], "rhs": rp.get("rhs"),
-                           "dtype": tag, "what": f[1], "witness_of": ent.get("id")}, key=fail_key(sub, rp["query"], f[0], f[1], tag))
+                           "dtype": tag, "what": f[1], "witness_of": ent.get("id")}, key=fail_key(sub, rp["query"], f[0], f[1], tag, rp.get("rhs")))
     return n
 
 
@@ -1094,6 +1223,22 @@ def run(ctx):
     torch.set_num_threads(1)
     regenerate()
     rng = random.Random(ctx.seed)
+    # source scan: size thresholds in the anchored files widen the column family of the wide / tall cells
+    global WIDE_COLS
+    scan_info = {}
+    try:
+        from . import c01_scan
+        items = c01_scan.scan(common.REPO)
+        ts, too_big = c01_scan.thresholds(items)
+        WIDE_COLS = c01_scan.family(ts)
+        new_it = c01_scan.new_items(items)
+        scan_info = {"thresholds_straddled": ts, "thresholds_too_large": too_big, "column_family": list(WIDE_COLS),
+                     "items": len(items), "new_items": None if new_it is None else [c01_scan.key(i) for i in new_it]}
+        if new_it:
+            ctx.say("NOTE property=C01 source scan: %d new size-threshold candidate(s) in the anchored files: %s"
+                    % (len(new_it), "; ".join(c01_scan.key(i) for i in new_it[:6]) + (" ..." if len(new_it) > 6 else "")))
+    except Exception as exn:
+        scan_info = {"error": repr(exn)[:200]}
     cell_list = cells(ctx.quick)
 
     def on_fail(info):
@@ -1151,9 +1296,6 @@ def run(ctx):
             row = cs["rows"][qi]
             if row["fmain"]:
                 continue                 # already reported by the direct predicate (violation or known finding)
-            if has_chol_upper(cs["e"]) or has_batched_zero(cs["e"]):
-                stats["repaired_cells"] += 1   # the model transcribes a listed defect that this tree no longer has
-                continue
             sig = (cs["e"]["cls"], row["kind"])
             if sig in reported:
                 continue
@@ -1185,7 +1327,8 @@ def run(ctx):
             for row in cs["rows"]:
                 keys.add((d, b, s, row["kind"]))
     samples = []
-    for cs in (cases[len(cases) // 3], cases[-1]) if cases else ():
+    plain = [cs for cs in cases if not cs["cell"][0].startswith("Wide")]
+    for cs in (plain[len(plain) // 3], plain[-1]) if plain else ():
         row = cs["rows"][1]
         samples.append({"expr": cs["e"], "query": row["kind"], "rhs": row["rhs"],
                         "observed": row["o64"][1].tolist() if row["o64"][0] == "ok" else row["o64"][1]})
@@ -1207,9 +1350,12 @@ def run(ctx):
         "expressions_inside_covered": n_cov, "default_dtype_mismatch_evaluations": n_dd,
         "classes": len(cls_hist), "class_histogram": cls_hist,
         "model_mismatches": stats["model_mismatches"], "predicate_failures": stats["predicate_failures"],
-        "repaired_known_cells": stats["repaired_cells"], "known_finding_witnesses_still_failing": n_kf,
+        "known_finding_witnesses_still_failing": n_kf,
         "samples": samples, "wall_python_s": round(time.time() - t0, 1), "stage_seconds": stage,
-        "transcription_drift": drift,
+        "transcription_drift": drift, "source_scan": scan_info,
+        "wide_family": {"cells": sum(1 for c in cell_list if c[0].startswith("Wide")),
+                        "expressions": sum(1 for cs in cases if cs["cell"][0].startswith("Wide")),
+                        "evaluations": sum(len(cs["rows"]) for cs in cases if cs["cell"][0].startswith("Wide"))},
     })
     ctx.assumptions = [
         "entries are small integers, so float32/float64 results are exact (FFT-based Toeplitz products up to 1e-6 / 2e-2)",
